@@ -29,16 +29,17 @@ type Job struct {
 
 // RunCase is one generated (or replayed) scenario of any world.
 type RunCase struct {
-	Property string          `json:"property"`
-	Leg      string          `json:"leg"`
-	Run      uint64          `json:"run"`
-	Seed     uint64          `json:"seed"`
-	Search   *SearchScenario `json:"search,omitempty"`
-	UCI      *UCIScenario    `json:"uci,omitempty"`
-	UCICfg   *UCIGenCfg      `json:"uci_cfg,omitempty"` // generation mode only: the policy configuration
-	C14      []c14Case       `json:"c14,omitempty"`
-	C14Real  bool            `json:"c14_real,omitempty"`  // C14 cases run against the real search (parked inside its tree)
-	UCITwins int             `json:"uci_twins,omitempty"` // C08: replay the session on this many further drivers sharing the bubble
+	Property  string          `json:"property"`
+	Leg       string          `json:"leg"`
+	Run       uint64          `json:"run"`
+	Seed      uint64          `json:"seed"`
+	Search    *SearchScenario `json:"search,omitempty"`
+	UCI       *UCIScenario    `json:"uci,omitempty"`
+	UCICfg    *UCIGenCfg      `json:"uci_cfg,omitempty"` // generation mode only: the policy configuration
+	C14       []c14Case       `json:"c14,omitempty"`
+	GridSlice int             `json:"grid_slice,omitempty"` // C14 grid leg: 1 + slice index
+	C14Real   bool            `json:"c14_real,omitempty"`   // C14 cases run against the real search (parked inside its tree)
+	UCITwins  int             `json:"uci_twins,omitempty"`  // C08: replay the session on this many further drivers sharing the bubble
 }
 
 // RunResult is what one run produced.
@@ -57,6 +58,7 @@ type RunResult struct {
 	sigs       []uint64
 	nontrivial bool
 	abandoned  bool // the bubble ended with goroutines still blocked in it
+	gridSlice  int  // C14: 1 + index of the boundary-grid slice this run covered (0 = none)
 }
 
 // WorkerSummary closes a worker's output.
@@ -75,8 +77,10 @@ type WorkerSummary struct {
 	LegRuns      map[string]int    `json:"leg_runs"`
 	// Restart: a run left goroutines behind in its bubble (deadlocked driver);
 	// the process ends here and the driver starts a fresh one at NextK.
-	Restart bool `json:"restart,omitempty"`
-	NextK   int  `json:"next_k,omitempty"`
+	GridSlices []int `json:"grid_slices,omitempty"` // C14: boundary-grid slices covered
+	GridTotal  int   `json:"grid_total,omitempty"`
+	Restart    bool  `json:"restart,omitempty"`
+	NextK      int   `json:"next_k,omitempty"`
 }
 
 func sha(s ...string) string {
@@ -133,8 +137,11 @@ func legFor(property string, rng *rand.Rand, tier string) string {
 			return "uci-sweep"
 		}
 	case "C14":
-		if x < 25 {
+		switch {
+		case x < 22:
 			return "c14-real"
+		case x < 40:
+			return "c14-grid"
 		}
 		return "c14"
 	}
@@ -190,12 +197,23 @@ func generateCase(property string, tier string, run, seed uint64) (*RunCase, *ra
 		if cfg.Hash || rng.IntN(3) == 0 {
 			rc.UCI.TTBytes = pick(rng, []int{32000, 65536, 1 << 20})
 		}
-	case "c14", "c14-real":
+	case "c14", "c14-real", "c14-grid":
 		n := 24
 		if thorough {
 			n = 60
 		}
 		cases := genC14Cases(rng, n, c14Boundary())
+		if rc.Leg == "c14-grid" {
+			// a slice of the boundary grid, chosen by the run index
+			grid := c14Grid()
+			cases = nil
+			slices := (len(grid) + 29) / 30
+			at := int(run % uint64(slices))
+			rc.GridSlice = at + 1
+			for i := 0; i < 30 && at*30+i < len(grid); i++ {
+				cases = append(cases, grid[at*30+i])
+			}
+		}
 		// keep the simulated time of one bubble well below the 292-year range of the clock
 		var total int64
 		for i, c := range cases {
